@@ -17,7 +17,8 @@ func init() {
 type nasCase struct {
 	t    *refnas.TMsg
 	a    nasAbstract
-	perm []int // order in which the optional IEs are put on the wire (nil = table order)
+	mk   func() nasAbstract // builds a when the case runs (the enumeration itself stays small)
+	perm []int              // order in which the optional IEs are put on the wire (nil = table order)
 	desc string
 }
 
@@ -31,23 +32,37 @@ func runNAS(ctx *Ctx, prop string) {
 		return
 	}
 	var cases []nasCase
+	const deep = true
+	type bigMsg struct {
+		t *refnas.TMsg
+		k int
+	}
+	var big []bigMsg // thorough: messages whose 2^k subsets are streamed instead of being listed
 	for mi := range tab.Messages {
 		t := &tab.Messages[mi]
 		k := len(t.Optional)
 		add := func(sub []int, lens map[int]int, content, variant int, perm []int, desc string) {
-			a := nasAbstract{mand: nasMandatoryDefault(t, variant)}
-			for _, idx := range sub {
-				e := t.Optional[idx]
-				n := nasOptLengths(e)[0]
-				if l, ok := lens[idx]; ok {
-					n = l
+			sub = append([]int{}, sub...)
+			mk := func() nasAbstract {
+				a := nasAbstract{mand: nasMandatoryDefault(t, variant)}
+				for _, idx := range sub {
+					e := t.Optional[idx]
+					n := nasOptLengths(e)[0]
+					if l, ok := lens[idx]; ok {
+						n = l
+					}
+					a.opts = append(a.opts, refnas.OptVal{Idx: idx, Val: nasOptValue(e, n, content)})
 				}
-				a.opts = append(a.opts, refnas.OptVal{Idx: idx, Val: nasOptValue(e, n, content)})
+				return a
 			}
-			cases = append(cases, nasCase{t, a, perm, desc})
+			cases = append(cases, nasCase{t: t, mk: mk, perm: perm, desc: desc})
 		}
-		// optional-IE subsets: all 2^k for k<=10; else all subsets of size <=2 and >=k-1
-		if k <= 10 {
+		// optional-IE subsets: all 2^k for k<=10 (thorough: k<=16); else all subsets of size <=2 (thorough: <=3) and >=k-1
+		kAll := 17
+		if k > kAll && ctx.Thorough {
+			big = append(big, bigMsg{t, k})
+		}
+		if k <= kAll {
 			for mask := 0; mask < 1<<uint(k); mask++ {
 				var sub []int
 				for i := 0; i < k; i++ {
@@ -75,6 +90,11 @@ func runNAS(ctx *Ctx, prop string) {
 				add(rest, nil, 0, 0, nil, fmt.Sprintf("all but IE %d", i))
 				for j := i + 1; j < k; j++ {
 					add([]int{i, j}, nil, 0, 1, nil, fmt.Sprintf("IEs %d,%d", i, j))
+					if deep {
+						for h := j + 1; h < k; h++ {
+							add([]int{i, j, h}, nil, 0, 2, nil, fmt.Sprintf("IEs %d,%d,%d", i, j, h))
+						}
+					}
 				}
 			}
 		}
@@ -93,6 +113,18 @@ func runNAS(ctx *Ctx, prop string) {
 					nb = append(nb, i+1)
 				}
 				add(nb, map[int]int{i: n}, 0, 1, nil, fmt.Sprintf("IE %d len %d with neighbours", i, n))
+				if deep {
+					// every length of IE i next to every other single IE (in front of it or behind it)
+					for j := 0; j < k; j++ {
+						if j != i {
+							pair := []int{i, j}
+							if j < i {
+								pair = []int{j, i}
+							}
+							add(pair, map[int]int{i: n}, 1, 2, nil, fmt.Sprintf("IE %d len %d with IE %d", i, n, j))
+						}
+					}
+				}
 			}
 		}
 		// mandatory LV / LV-E lengths
@@ -104,9 +136,12 @@ func runNAS(ctx *Ctx, prop string) {
 				if (e.Fmt == "LV" && n > 255) || (e.Cap > 0 && n > e.Cap) {
 					continue
 				}
-				a := nasAbstract{mand: nasMandatoryDefault(t, 1)}
-				a.mand[i] = pattern(2, n)
-				cases = append(cases, nasCase{t, a, nil, fmt.Sprintf("mandatory field %d length %d", i, n)})
+				i, n := i, n
+				cases = append(cases, nasCase{t: t, mk: func() nasAbstract {
+					a := nasAbstract{mand: nasMandatoryDefault(t, 1)}
+					a.mand[i] = pattern(2, n)
+					return a
+				}, desc: fmt.Sprintf("mandatory field %d length %d", i, n)})
 			}
 		}
 		// order of optional IEs on the wire: every permutation of up to 4 present IEs, adjacent transpositions of all
@@ -118,6 +153,24 @@ func runNAS(ctx *Ctx, prop string) {
 			permute(len(sub), func(p []int) {
 				add(sub, nil, 0, 0, append([]int{}, p...), fmt.Sprintf("first %d IEs in wire order %v", len(sub), p))
 			})
+			if deep && k > 4 {
+				// every choice of 4 present IEs (not only the first four), in every wire order
+				for a := 0; a < k; a++ {
+					for b := a + 1; b < k; b++ {
+						for c := b + 1; c < k; c++ {
+							for d := c + 1; d < k; d++ {
+								four := []int{a, b, c, d}
+								if a == 0 && b == 1 && c == 2 && d == 3 {
+									continue
+								}
+								permute(4, func(p []int) {
+									add(four, nil, 0, 0, append([]int{}, p...), fmt.Sprintf("IEs %v in wire order %v", four, p))
+								})
+							}
+						}
+					}
+				}
+			}
 			all := make([]int, k)
 			for i := range all {
 				all[i] = i
@@ -138,18 +191,37 @@ func runNAS(ctx *Ctx, prop string) {
 		pairs += len(m.Optional)
 	}
 	r.Set("message_IE_pairs", pairs)
-	ParallelFor(r, len(cases), func(l *report.Local, i int) { nasRunCase(r, l, prop, cases[i]) })
+	ParallelFor(r, len(cases), func(l *report.Local, i int) {
+		c := cases[i]
+		c.a = c.mk()
+		nasRunCase(r, l, prop, c)
+	})
+	for _, bm := range big {
+		bm := bm
+		ParallelFor(r, 1<<uint(bm.k), func(l *report.Local, mask int) {
+			a := nasAbstract{mand: nasMandatoryDefault(bm.t, mask%3)}
+			for i := 0; i < bm.k; i++ {
+				if mask&(1<<uint(i)) != 0 {
+					e := bm.t.Optional[i]
+					a.opts = append(a.opts, refnas.OptVal{Idx: i, Val: nasOptValue(e, nasOptLengths(e)[0], 0)})
+				}
+			}
+			nasRunCase(r, l, prop, nasCase{t: bm.t, a: a, desc: fmt.Sprintf("subset %0*b", bm.k, mask)})
+		})
+	}
 	if len(cases) > 0 {
-		r.Sample(nasAbstractString(cases[len(cases)/2].t, cases[len(cases)/2].a) + " (" + cases[len(cases)/2].desc + ")")
-		r.Sample(nasAbstractString(cases[7].t, cases[7].a) + " (" + cases[7].desc + ")")
+		for _, i := range []int{len(cases) / 2, 7} {
+			r.Sample(nasAbstractString(cases[i].t, cases[i].mk()) + " (" + cases[i].desc + ")")
+		}
 	}
 	if prop == "C08" {
 		nasUnknownTypes(r, tab)
 	} else {
 		nasConstructors(ctx, tab)
 	}
-	r.Rule = fmt.Sprintf("for each of the %d message types of the frozen TS 24.501 table (%d (message, optional IE) pairs): all 2^k optional-IE subsets for k<=10, else none/all/each alone/all-but-one/every pair; every optional IE alone and with its neighbours at lengths {1,2,0,3,16,255,256,1000,capacity} x 3 contents (both nibbles of half-octet IEs); mandatory LV/LV-E lengths {0,1,2,255,256,1000}; every permutation of the first <=4 optional IEs and every adjacent transposition of all of them on the wire; %s; distinct = distinct (message, abstract value, wire order); non-trivial = at least one optional IE or a non-default length",
-		len(tab.Messages), pairs, map[string]string{
+	r.Rule = fmt.Sprintf("for each of the %d message types of the frozen TS 24.501 table (%d (message, optional IE) pairs): all 2^k optional-IE subsets for k<=%d, else none/all/each alone/all-but-one/every pair%s; every optional IE alone and with its neighbours%s at lengths {1,2,0,3,16,255,256,1000,capacity} x 3 contents (both nibbles of half-octet IEs); mandatory LV/LV-E lengths {0,1,2,255,256,1000}; every permutation of the first <=4 optional IEs%s and every adjacent transposition of all of them on the wire; %s; distinct = distinct (message, abstract value, wire order); non-trivial = at least one optional IE or a non-default length",
+		len(tab.Messages), pairs, map[bool]int{false: 17, true: 24}[ctx.Thorough], map[bool]string{true: "", false: "/every triple"}[ctx.Thorough], " and next to every other single IE",
+		" and of every choice of 4 optional IEs", map[string]string{
 			"C08": "oracle: decode(encode(m)) == m; for the reference's canonical bytes b: encode(decode(b)) == b; permuted wire orders decode to the same message; all 256 message-type octets x both EPDs: unknown types are errors",
 			"C09": "oracle: library bytes == reference layout (message type octet, mandatory order/widths, IEI, format and length width of every optional IE per the table); reference-built bytes decode to the intended values; the emulator's NAS constructors parsed by the independent parser give the intended field values"}[prop])
 	r.Assume("frozen table mc/spec/ts24501.json: transcription of the pinned library reviewed against TS 24.501 clause 8 (corrections and kept release differences listed in its notes)",
